@@ -364,3 +364,28 @@ Proof.
   pose proof (set_copy xs ys (VList []) (VList []) v2 v3 v4 v5 v6 v7 v8 v9 v10 w2 w3 w4 w5 w6 w7 w8 w9 w10 Hl H1) as E.
   init_via E.
 Qed.
+
+Theorem input_forms_any_length :
+  forall (v0 v1 v2 v3 v4 v5 v6 v7 v8 v9 v10 : val R) (xs ys : list R) (l : list (R * R)) (z : R) (xs0 ys0 : list R),
+  length xs = length ys -> (2 <= length xs)%nat -> (2 <= length l)%nat ->
+  let o := obj11 v0 v1 v2 v3 v4 v5 v6 v7 v8 v9 v10 in
+  CurveFitting___init__ Rops o (VTuple [VList (fl xs); VList (fl ys)]) = cf_of xs ys
+  /\ CurveFitting___init__ Rops o (VTuple [VTuple (fl xs); VTuple (fl ys)]) = cf_of xs ys
+  /\ CurveFitting___init__ Rops o (VTuple (il l)) = cf_of (map fst l) (map snd l)
+  /\ CurveFitting___init__ Rops o (VTuple (il l ++ [VFloat z])) = cf_of (map fst l) (map snd l)
+  /\ CurveFitting___init__ Rops o (VTuple [cf_of xs ys]) = cf_of xs ys
+  /\ CurveFitting_set Rops (cf_of xs0 ys0) (VTuple [VList (fl xs); VList (fl ys)]) = VTuple [cf_of xs ys; VNone]
+  /\ CurveFitting_set Rops (cf_of xs0 ys0) (VTuple (il l)) = VTuple [cf_of (map fst l) (map snd l); VNone]
+  /\ CurveFitting_set Rops (cf_of xs0 ys0) (VTuple [cf_of xs ys]) = VTuple [cf_of xs ys; VNone].
+Proof.
+  intros v0 v1 v2 v3 v4 v5 v6 v7 v8 v9 v10 xs ys l z xs0 ys0 Hl H2 H2l o. unfold o.
+  assert (H1 : (1 <= length xs)%nat) by lia.
+  split; [apply init_two_lists; assumption |].
+  split; [apply init_two_tuples; assumption |].
+  split; [apply init_interleaved; assumption |].
+  split; [apply init_interleaved_odd; assumption |].
+  split; [exact (init_copy xs ys _ _ _ _ _ _ _ _ _ _ _ _ _ _ _ _ _ _ _ _ Hl H1) |].
+  split; [exact (set_two_lists xs ys _ _ _ _ _ _ _ _ _ _ _ Hl H2) |].
+  split; [exact (set_interleaved l _ _ _ _ _ _ _ _ _ _ _ H2l) |].
+  exact (set_copy xs ys _ _ _ _ _ _ _ _ _ _ _ _ _ _ _ _ _ _ _ _ Hl H1).
+Qed.
